@@ -391,7 +391,46 @@ func c09Fresh(which int) core.Result {
 	return core.Okay(true, o2)
 }
 
+// c09AfterFail: executions that fail in the middle of a block rendered through parent() / block() (after that block has
+// produced output), then a good chain - in the same process, on the same or on a fresh environment, 30 rounds: the
+// good chain renders as it does alone (nothing of the failed rendering is left in a recycled buffer).
+func c09AfterFail(fail, sameEnv int) core.Result {
+	tpls := map[string]string{
+		"root":  "<{% block a %}root:{{ who }};{% endblock %}|{% block b %}rb{% endblock %}>",
+		"mid":   "{% extends 'root' %}{% block a %}mid({{ parent() }}){% endblock %}",
+		"good":  "{% extends 'mid' %}{% block a %}child[{{ parent() }}]{% endblock %}{% block b %}({{ block('a') }}){% endblock %}",
+		"broot": "<{% block a %}SECRET-{{ who }}-{{ nofunc() }}{% endblock %}|{% block b %}partial{% include 'nosuch' %}{% endblock %}>",
+		"bad0":  "{% extends 'broot' %}{% block a %}x[{{ parent() }}]{% endblock %}",
+		"bad1":  "{% extends 'broot' %}{% block b %}y{{ block('a') }}{% endblock %}{% block a %}LEAK{{ 1 % 0 }}{% endblock %}",
+		"bad2":  "{% extends 'broot' %}{% block b %}z({{ parent() }}){% endblock %}{% block a %}ok{% endblock %}",
+	}
+	want := "<child[mid(root:bob;)]|(child[mid(root:bob;)])>"
+	mk := func() *stick.Env { return stick.New(&stick.MemoryLoader{Templates: tpls}) }
+	env := mk()
+	for round := 0; round < 30; round++ {
+		fenv := env
+		if sameEnv == 0 {
+			fenv = mk()
+		}
+		if _, err, pan := tryExec(fenv, "bad"+itoa(fail), map[string]stick.Value{"who": "alice"}); err == nil && pan == "" {
+			return core.Violation("error", "the failing chain bad"+itoa(fail)+" rendered without error")
+		}
+		genv := env
+		if sameEnv == 0 {
+			genv = mk()
+		}
+		out, err, pan := tryExec(genv, "good", map[string]stick.Value{"who": "bob"})
+		if pan != "" || err != nil || out != want {
+			return core.Violation("resolution", fmt.Sprintf("round %d: after an execution that failed inside a block rendered through parent() / block() (%q), the chain good renders %q (%v %s), want %q", round, tpls["bad"+itoa(fail)], out, err, pan, want))
+		}
+	}
+	return core.Okay(true, want)
+}
+
 func c09Run(c core.Case) core.Result {
+	if c.Fam == "afterfail" {
+		return c09AfterFail(c.N[0], c.N[1])
+	}
 	if c.Fam == "fresh" {
 		return c09Fresh(c.N[0])
 	}
@@ -575,6 +614,12 @@ func c09Levels(tier string) []core.Level {
 			// history: the root, the middle or the leaf file rewritten between two executions on one environment
 			for which := 0; which < 3; which++ {
 				emit(core.Case{Fam: "fresh", N: []int{which}})
+			}
+			// history: three chains that fail inside a block rendered through parent() / block(), then a good chain (30 rounds, same / fresh environment)
+			for fail := 0; fail < 3; fail++ {
+				for same := 0; same < 2; same++ {
+					emit(core.Case{Fam: "afterfail", N: []int{fail, same}})
+				}
 			}
 		}},
 		{Name: "chains of 1..4 templates x 2 block names x {absent, override, override+parent()} per level x 3 root layouts x 3 parent-reference forms x use (none / plain / aliased / three aliases in one tag, at every level) x block()", Gen: func(emit func(core.Case)) { c09Gen(4, 2, 4, emit) }},
